@@ -76,14 +76,18 @@ func newKeyPool(r *hx.Rng) *keyPool {
 			p.small = append(p.small, k)
 		}
 	}
-	needX, needY, need2 := 3, 3, 1
-	for tries := 0; tries < 12000 && (needX > 0 || needY > 0 || need2 > 0); tries++ {
+	needX, needY, need2, needA := 3, 3, 1, 2
+	for tries := 0; tries < 12000 && (needX > 0 || needY > 0 || need2 > 0 || needA > 0); tries++ {
 		k, err := crypto.ToECDSA(r.Bytes(32))
 		if err != nil {
 			continue
 		}
 		lx, ly := len(k.PublicKey.X.Bytes()), len(k.PublicKey.Y.Bytes())
 		switch {
+		case needA > 0 && refAddress(&k.PublicKey)[:4] == "0x00":
+			needA--
+			p.small = append(p.small, k)
+			p.stats["random-address-leading-zero"]++
 		case (lx <= 30 || ly <= 30) && need2 > 0:
 			need2--
 			p.short = append(p.short, k)
@@ -118,21 +122,20 @@ func (g gen) keyFrom(p *keyPool) *ecdsa.PrivateKey {
 // serialisation padding class: hash with a leading zero byte, signature r or s short.
 func (g gen) honestNativeClass(k *ecdsa.PrivateKey, chainId, class string) *types.Transaction {
 	for tries := 0; tries < 4000; tries++ {
-		tx := g.honestNative(k, chainId)
+		tx := g.honestNativeRaw(k, chainId)
 		sb := tx.Sign.Bytes()
+		hit := false
 		switch class {
 		case "hash0":
-			if tx.Hash[0] == 0 {
-				return tx
-			}
+			hit = tx.Hash[0] == 0
 		case "short-r":
-			if sb[0] == 0 {
-				return tx
-			}
+			hit = sb[0] == 0
 		case "short-s":
-			if sb[32] == 0 {
-				return tx
-			}
+			hit = sb[32] == 0
+		}
+		if hit {
+			validateHonestNative(k, tx)
+			return tx
 		}
 	}
 	return nil
@@ -146,7 +149,7 @@ func (g gen) wrongAddressTx(k *ecdsa.PrivateKey, chainId string) *types.Transact
 	}
 	tx := g.honestNative(k, chainId)
 	tx.Source = unpaddedAddress(&k.PublicKey)
-	tx.Hash = tx.GenHash()
+	tx.Hash = common.BytesToHash(refSha256(harnessSer(tx)))
 	nk := common.PrivateKey{PrivKey: *k}
 	s := nk.Sign(tx.Hash.Bytes())
 	tx.Sign = &s
